@@ -60,6 +60,9 @@ async def run_exchange(sc, client=None, agent=None):
             pass
         t_known = ag.engine_time()
         ag.time_override = t_known - sc["resp_lag"]
+    if sc.get("agent_es"):
+        # the agent answers the operation with an (authentic, encrypted where applicable) error response
+        ag.script = lambda req: dict(es=sc["agent_es"], ei=1, vbs=[(o_, NULL) for o_, _, _ in req["vbs"]])
     if sc.get("prior_report"):
         # history: an earlier request of this client was answered with a usmStats Report (it fails); what follows must be secured as ever
         ag.force_report = sc["prior_report"]
@@ -126,7 +129,7 @@ async def run_exchange(sc, client=None, agent=None):
         _clk.__exit__(None, None, None)
     # the first data request of this operation as the agent saw it
     reqs = [r for r in ag.log[nlog:] if r.get("engine") == engine]
-    ev = dict(e="xchg", op=op, level=sc["level"], ret=ret, nreq=len(reqs))
+    ev = dict(e="xchg", op=op, level=sc["level"], ret=ret, nreq=len(reqs), agent_es=sc.get("agent_es", 0))
     if not reqs:
         ev["req"] = dict(raw=[], plain=[], digest_ok=False, verdict="no-request", boots=[0], time=[0])
         return ev, c, ag
@@ -163,7 +166,14 @@ def run_all(scenarios):
     async def main():
         out = []
         for sc in scenarios:
-            ev, _, _ = await run_exchange(sc)
+            if sc.get("second_client"):
+                # history in one process: a first client talks to the engine, the engine restarts (boots + 1, time from 0), a NEW client talks to it
+                _, _, ag = await run_exchange(dict(sc, op="get"))
+                ag.reboot()
+                ag.script = None
+                ev, _, _ = await run_exchange(sc, agent=ag)
+            else:
+                ev, _, _ = await run_exchange(sc)
             out.append(dict(scenario={k: (list(v) if isinstance(v, (bytes, bytearray)) else v) for k, v in sc.items()}, events=[ev]))
         return out
     return asyncio.run(main())
